@@ -425,6 +425,15 @@ func (r *tunnelRun) plans(cfgNo int, cfg tnCfg, conns int) []*userPlan {
 		if p.back.downBytes > 64*1024 && p.back.chunk < 1024 {
 			p.back.chunk = 8192
 		}
+		if cfg.Limit != "none" && cfg.LimitKB < 1024 {
+			// under a tight limit the per-record overhead of a TLS backend on tiny writes would dominate the transfer time
+			if p.chunk < 1024 {
+				p.chunk = 1024
+			}
+			if p.back.chunk < 1024 {
+				p.back.chunk = 1024
+			}
+		}
 		switch r.rnd.Intn(6) {
 		case 0:
 			p.mode, p.closeAfter, p.back.downBytes, p.back.closeAfter = "A", "written", 0, "never"
